@@ -106,25 +106,6 @@ def fcidump(ctx):
            f"fh5['hcore'] = {ast.unparse(written['hcore']) if 'hcore' in written else '?'}", wd)
     ctx.ob("KEYS-2", "FCIDUMP_chol: dataset 'energy_core' holds enuc", "energy_core" in written and
            ast.unparse(written["energy_core"]) == "enuc", "", wd)
-    # call of write_dqmc: name affinity
-    pa = p.func("pyscf_interface.prep_afqmc")
-    call = None
-    for nd in ast.walk(pa.node):
-        if isinstance(nd, ast.Call) and dotted(nd.func) == "write_dqmc":
-            call = nd
-    if call is None:
-        raise AnalysisError("prep_afqmc no longer calls write_dqmc")
-    params = [x.name for x in wd.params]
-    args = [ast.unparse(a) for a in call.args]
-    affinity = {"hcore": ("h1e",), "hcore_mod": ("h1e_mod",), "chol": ("chol",), "nelec": ("sum(nelec)",),
-                "nmo": ("nbasis", "nmo", "norb"), "enuc": ("enuc",)}
-    bad = [f"{prm} <- {a}" for prm, a in zip(params, args) if prm in affinity and a not in affinity[prm]]
-    ctx.ob("KEYS-2", "prep_afqmc: write_dqmc arguments bind the parameters they are named for", not bad and
-           len(args) == 6, f"positional binding {list(zip(params, args))}" + (f"; mismatched {bad}" if bad else ""), pa,
-           call.lineno)
-    kw = {k.arg: ast.unparse(k.value) for k in call.keywords}
-    ctx.ob("KEYS-2", "prep_afqmc: spin and file name handed to write_dqmc", kw.get("ms") == "mol.spin" and
-           kw.get("filename") == "'FCIDUMP_chol'", f"{kw}", pa, call.lineno)
     # electron counts
     ok = False
     for nd in ast.walk(rd.node):
@@ -343,8 +324,179 @@ def ene_err(ctx):
            ast.unparse(rets[-1].value).replace(" ", "").strip("()") == "e_afqmc,e_err_afqmc", "", drv)
 
 
+
+def prep_dataflow(ctx):
+    """Def-use rules on pyscf_interface.prep_afqmc (value graph of the function, nothing executed):
+    which values reach write_dqmc, that they switch to the frozen-core quantities together, and that the
+    QR-based orthonormalisation of the trial orbitals fixes signs column by column."""
+    from ..rules.match import m_arrcall, m_binop, m_method, strip_reshape
+    from ..symex import (Evaluator, array_fn, call_parts, const, func_name, getitem, is_const, show,
+                         strip_wrappers, subterms)
+
+    p = ctx.p
+    pa = p.func("pyscf_interface.prep_afqmc")
+    wd = p.func("pyscf_interface.write_dqmc")
+    ev = Evaluator(p)
+    ev.eval_function(pa)
+    calls = [e.data for e in ev.events if e.kind == "call" and (func_name(e.data) or "").endswith("write_dqmc")]
+    if len(calls) != 1:
+        raise AnalysisError(f"prep_afqmc: {len(calls)} write_dqmc calls in the value graph")
+    _, pos, kws = call_parts(calls[0])
+    names = [x.name for x in wd.params]
+    arg = dict(zip(names, pos))
+    arg.update(kws)
+    need = ("hcore", "hcore_mod", "chol", "nelec", "nmo", "enuc")
+    if any(k not in arg for k in need):
+        raise AnalysisError("prep_afqmc: write_dqmc call does not supply " + str([k for k in need if k not in arg]))
+    h1, h1m, chol, nel, nmo, enuc = (strip_wrappers(arg[k]) for k in need)
+
+    def has(t, pred):
+        return any(pred(x) for x in subterms(t))
+
+    # hcore_mod = hcore - v0(chol)
+    d = m_binop(h1m, "-")
+    ok_mod = d is not None and strip_wrappers(d[0]) is h1 and has(d[1], lambda x: x.op == "call" and array_fn(x) == "einsum")
+    chol_core = strip_reshape(chol)
+    v0_uses = d is not None and has(d[1], lambda x: strip_reshape(x) is chol_core)
+    ctx.ob("KEYS-2", "prep_afqmc -> write_dqmc: hcore_mod is hcore minus the self-interaction built from the "
+           "Cholesky vectors that are written", ok_mod and v0_uses,
+           "hcore_mod = hcore - einsum(chol, chol)" if ok_mod and v0_uses else
+           f"hcore_mod = {show(h1m, maxdepth=2)[:80]}", pa)
+    ctx.ob("KEYS-2", "prep_afqmc -> write_dqmc: hcore is not the modified one-body operator",
+           not has(h1, lambda x: x is h1m) and h1 is not h1m, "", pa)
+    ok_nmo = nmo.op == "getitem" and nmo.args[0].op == "attr" and nmo.args[0].args[1] == "shape" and \
+        strip_wrappers(nmo.args[0].args[0]) is h1
+    ctx.ob("KEYS-2", "prep_afqmc -> write_dqmc: nmo is the dimension of the hcore that is written", ok_nmo,
+           show(nmo, maxdepth=2)[:80], pa)
+    ok_nel = nel.op == "call" and func_name(nel) in ("builtins.sum", "numpy.sum") and has(
+        nel, lambda x: x.op == "attr" and x.args[1] in ("nelec", "nelecas"))
+    ctx.ob("KEYS-2", "prep_afqmc -> write_dqmc: nelec is the sum of an (n_alpha, n_beta) pair", ok_nel,
+           show(nel, maxdepth=2)[:80], pa)
+    ms = strip_wrappers(arg.get("ms")) if arg.get("ms") is not None else None
+    fn_ = arg.get("filename")
+    ctx.ob("KEYS-2", "prep_afqmc -> write_dqmc: ms is the molecule's spin and the file is the one the set-up reads",
+           ms is not None and ms.op == "attr" and ms.args[1] == "spin" and fn_ is not None and is_const(fn_, "FCIDUMP_chol"),
+           f"ms = {show(ms, maxdepth=1)[:40] if ms is not None else None}, filename = {show(fn_) if fn_ is not None else None}", pa)
+    # frozen core: everything switches to the active space together
+    eff = [x for x in subterms(h1) if x.op == "call" and x.args[0].op == "attr" and x.args[0].args[1] == "get_h1eff"]
+    ctx.ob("KEYS-2", "prep_afqmc: the frozen-core branch takes hcore from an active-space object (get_h1eff)",
+           len(eff) == 1, f"{len(eff)} get_h1eff receivers reach hcore", pa)
+    if len(eff) == 1:
+        M = strip_wrappers(eff[0].args[0].args[0])
+        conds = [x.args[0] for x in subterms(h1) if x.op == "phi" and any(y is eff[0] for y in subterms(x.args[1]))
+                 and not any(y is eff[0] for y in subterms(x.args[2]))]
+        if not conds:
+            raise AnalysisError("prep_afqmc: get_h1eff is not under a branch")
+        c = conds[0]
+
+        def switches(t, attr_pred):
+            return any(x.op == "phi" and x.args[0] is c and any(
+                attr_pred(y) and any(z is M for z in subterms(y)) for y in subterms(x.args[1])) for x in subterms(t))
+
+        for label, t, pred in (
+                ("nelec", nel, lambda y: y.op == "attr" and y.args[1] == "nelecas"),
+                ("enuc", enuc, lambda y: y.op == "call" and y.args[0].op == "attr" and y.args[0].args[1] == "get_h1eff"),
+                ("chol", chol, lambda y: y.op == "attr" and y.args[1] in ("ncore", "ncas"))):
+            ok = switches(t, pred)
+            ctx.ob("KEYS-2", f"prep_afqmc: with a frozen core, {label} written to the file comes from the same "
+                   f"active-space object as hcore", ok,
+                   f"under `{show(c, maxdepth=2)[:50]}`" if ok else
+                   f"hcore switches to the active space under `{show(c, maxdepth=2)[:50]}` but {label} does not: "
+                   f"{show(t, maxdepth=2)[:80]}", pa)
+    # QR orthonormalisation of the trial orbitals: sign fix scales the columns of Q by sign(diag R)
+    n_fix = 0
+    seen = set()
+    for e in ev.events:
+        if e.kind not in ("assign", "store", "call"):
+            continue
+        val = e.data if e.kind == "call" else (e.data[1] if e.kind == "assign" else e.data[2])
+        if not hasattr(val, "op"):
+            continue
+        for x in subterms(val):
+            if x.uid in seen:
+                continue
+            seen.add(x.uid)
+            ops, form = None, None
+            if x.op == "binop" and x.args[0] in ("*", "@"):
+                ops, form = [x.args[1], x.args[2]], x.args[0]
+            elif x.op == "call" and array_fn(x) == "einsum":
+                _, ep, _ = call_parts(x)
+                if len(ep) == 3 and ep[0].op == "const":
+                    ops, form = [ep[1], ep[2]], "einsum:" + str(ep[0].args[0])
+            elif x.op == "call" and x.args[0].op == "attr" and x.args[0].args[1] == "dot":
+                ops, form = [x.args[0].args[0], call_parts(x)[1][0]], "@"
+            if ops is None:
+                continue
+
+            def qr_part(t):
+                t0 = strip_wrappers(t)
+                if t0.op == "getitem" and t0.args[1].op == "const" and t0.args[0].op == "call" and \
+                        (func_name(t0.args[0]) or "").endswith("linalg.qr"):
+                    return t0.args[0], t0.args[1].args[0]
+                return None
+
+            def sign_of(t):
+                """(qr call, index pattern) when t is sign(diag(R)) possibly indexed with None/newaxis"""
+                t0 = strip_wrappers(t)
+                pat = "plain"
+                if t0.op == "getitem" and t0.args[1].op == "tuple":
+                    kinds = []
+                    for a in t0.args[1].args:
+                        if a.op == "const" and a.args[0] is None or (a.op == "attr" and a.args[1] == "newaxis"):
+                            kinds.append("new")
+                        elif a.op == "slice" or (a.op == "const" and a.args[0] is Ellipsis):
+                            kinds.append("all")
+                        else:
+                            kinds.append("?")
+                    pat = ",".join(kinds)
+                    t0 = strip_wrappers(t0.args[0])
+                dg = False
+                if t0.op == "call" and array_fn(t0) == "diag":
+                    dg = True
+                    t0 = strip_wrappers(call_parts(t0)[1][0])
+                if not (t0.op == "call" and array_fn(t0) == "sign"):
+                    return None
+                inner = strip_wrappers(call_parts(t0)[1][0])
+                r = None
+                if inner.op == "call" and inner.args[0].op == "attr" and inner.args[0].args[1] == "diagonal":
+                    r = qr_part(inner.args[0].args[0])
+                elif inner.op == "call" and array_fn(inner) in ("diag", "diagonal"):
+                    r = qr_part(call_parts(inner)[1][0])
+                if r is None or r[1] != 1:
+                    return None
+                return r[0], ("diag" if dg else pat)
+
+            for a, b, q_first in ((ops[0], ops[1], True), (ops[1], ops[0], False)):
+                qp, sg = qr_part(a), sign_of(b)
+                if qp is None or qp[1] != 0 or sg is None:
+                    continue
+                n_fix += 1
+                same = qp[0] is sg[0]
+                if form == "*":
+                    cols = sg[1] in ("plain", "new,all")
+                elif form == "@":
+                    cols = sg[1] == "diag" and q_first
+                else:
+                    sub = form.split(":", 1)[1].replace(" ", "")
+                    try:
+                        ins, out = sub.split("->")
+                        i1, i2 = ins.split(",")
+                        qi, si = (i1, i2) if q_first else (i2, i1)
+                        cols = len(qi) == 2 and si == qi[1] and out == qi
+                    except ValueError:
+                        cols = False
+                ctx.ob("PAIR-3", f"prep_afqmc: QR sign fix #{n_fix} scales the columns of Q by sign(diag R) of the same "
+                       f"factorisation", same and cols,
+                       ("Q and R of one qr call; " if same else "Q and R come from different qr calls; ") +
+                       (f"column scaling ({form}, {sg[1]})" if cols else
+                        f"{form} with sign vector indexed [{sg[1]}] scales rows, not columns"), pa, e.line)
+    ctx.ob("PAIR-3", "prep_afqmc: QR-orthonormalised trial orbitals are sign-fixed (UHF alpha, UHF beta, ROHF)",
+           n_fix >= 3, f"{n_fix} sign fixes found", pa)
+
+
 def run(ctx):
     fcidump(ctx)
+    prep_dataflow(ctx)
     npz_files(ctx)
     trial_dispatch(ctx)
     options_defaults(ctx)
